@@ -962,7 +962,17 @@ class CSSStyleSheet(cssutils.stylesheets.StyleSheet):
 
         if rule.IMPORT_RULE == rule.type and not rule.hrefFound and moved:
             # try loading the imported sheet which has new relative href now
-            rule.href = rule.href
+            try:
+                rule.href = rule.href
+            except xml.dom.DOMException:
+                # (raising mode: the imported sheet does not parse) the rule
+                # is refused as a whole
+                for i, r in enumerate(self._cssRules):
+                    if r is rule:
+                        del self._cssRules[i]
+                        break
+                rule._parentStyleSheet = None
+                raise
 
         return index
 
